@@ -1,6 +1,7 @@
 package types
 
 import (
+	"math"
 	"time"
 
 	sdk "github.com/cosmos/cosmos-sdk/types"
@@ -80,7 +81,12 @@ func CalculateDuration(deposit sdk.Coin, flowRate int64) int64 {
 		decDeposit := sdk.NewDecCoinFromCoin(deposit)
 		decDuration := decDeposit.Amount.QuoTruncateMut(decFlowRate)
 		// note: decimal values are rounded down, e.g. 2628008.9 to just 2628008.
-		return decDuration.TruncateInt64()
+		duration := decDuration.TruncateInt()
+		if !duration.IsInt64() {
+			// longer than int64 seconds: saturate instead of panicking; AddSecondsToTime rejects it
+			return math.MaxInt64
+		}
+		return duration.Int64()
 	}
 
 	return 0
@@ -141,4 +147,16 @@ func CalculateValidatorFee(valFee sdk.Dec, amountToClaim sdk.Coin) (sdk.Coin, sd
 	}
 
 	return finalClaimCoin, valFeeCoin
+}
+
+// maxTimestampUnix is the last second a stored timestamp can carry (9999-12-31T23:59:59Z)
+const maxTimestampUnix = 253402300799
+
+// AddSecondsToTime returns t + seconds. ok is false if the result cannot be represented in a stored
+// timestamp. (t.Add(time.Second * time.Duration(seconds)) silently overflows beyond ~292 years.)
+func AddSecondsToTime(t time.Time, seconds int64) (result time.Time, ok bool) {
+	if seconds < 0 || t.Unix() > maxTimestampUnix || seconds > maxTimestampUnix-t.Unix() {
+		return t, false
+	}
+	return time.Unix(t.Unix()+seconds, int64(t.Nanosecond())).UTC(), true
 }
